@@ -277,6 +277,23 @@ class SymSeq(SymBase):
     def tolist(self):
         return self.as_kind("list", copy=True)
 
+    def cumsum(self, axis=None, dtype=None, out=None):
+        """ndarray.cumsum of a 1-d integer array (assumed numpy meaning): p[0] = a[0], p[j] = p[j-1] + a[j].
+        Machine width: the running total is ASSUMED to fit the requested integer dtype."""
+        from .contract import Int
+        from .npmodel import MODELS_USED
+
+        if out is not None or axis not in (None, 0) or not isinstance(self.elem, Int):
+            raise Unsupported("cumsum on this argument")
+        MODELS_USED.add("ndarray.cumsum (prefix sums; no overflow of the requested integer dtype)")
+        c = ctx()
+        a = self.arrs[0]
+        p = z3.Array(c.fresh_name("cumsum"), z3.IntSort(), z3.IntSort())
+        j = z3.Int(c.fresh_name("j"))
+        c.assume(z3.Implies(self.n > 0, z3.Select(p, 0) == z3.Select(a, 0)), fact=True)
+        c.assume(z3.ForAll([j], z3.Implies(z3.And(j >= 1, j < self.n), z3.Select(p, j) == z3.Select(p, j - 1) + z3.Select(a, j))), fact=True)
+        return SymSeq(self.kind, self.elem, self.n, [p])
+
     def elementwise_differs(self, o):
         """exists j: self[j] != o[j] (same length assumed by the caller)"""
         j = z3.Int(ctx().fresh_name("j"))
